@@ -184,6 +184,8 @@ def send_messages_contract(n=1):
             P("C02", "exactly-one-write-of-the-batch", f"n_writes == 1 and writes == {exp}"),
             P("C08", "written-only-while-open", "write_before_close and old(self._handshake_complete)"),
             ("nothing-else-changes", "conn_unchanged()"),
+            # (C10) a ping is due exactly when no message *arrived*: what the client itself sends is not a sign of life of the device
+            P("C10", "sending-is-not-a-sign-of-life", "self._send_pending_ping == old(self._send_pending_ping) and self._pong_timer is old(self._pong_timer) and self._ping_timer is old(self._ping_timer)"),
         ],
         raises={
             "ConnectionNotEstablishedAPIError": {"when": "not old(self._handshake_complete)", "kind": "property",
@@ -196,7 +198,7 @@ def send_messages_contract(n=1):
                                                  ("no-write-recorded", "n_writes == 0"),
                                                  ("handlers-touched-only-by-user-code", "implies(ghost.stop_calls == old(ghost.stop_calls), handlers_of(self, q) == old(handlers_of(self, q)))")]},
         },
-        tags=["C02", "C08", "C09"],
+        tags=["C02", "C08", "C09", "C10"],
     )
     return c
 
@@ -246,14 +248,17 @@ def process_packet_contract():
     return mk(
         "process_packet", params={"msg_type_proto": "int", "data": "bytes"}, dispatches=True,
         requires=[("type-number-is-a-varint-or-16-bit-value", "msg_type_proto >= 0")],
-        post_hints=f"if defined_id(msg_type_proto) and old({S}) is not CS.CLOSED:\n    unfold(with_msg({H}, msg, len({H})))",
+        post_hints=f"if defined_id(msg_type_proto) and old({S}) is not CS.CLOSED and msg_decoded:\n    unfold(with_msg({H}, msg, len({H})))",
         ensures=[
             P("C08", "closed-connection-delivers-nothing", f"implies(old({S}) is CS.CLOSED, ghost.dispatched == old(ghost.dispatched))"),
             P("C10", "any-valid-message-is-a-sign-of-life", "implies(defined_id(msg_type_proto), passed_loop or (self._pong_timer is None and not self._send_pending_ping and not armed(old(self._pong_timer))))"),
-            P("C12", "undefined-type-ignored", "implies(not defined_id(msg_type_proto), conn_unchanged() and n_writes == 0)"),
-            P("C12", "class-is-the-one-api.proto-assigns", "implies(defined_id(msg_type_proto), same_class(class_of(msg), proto_class(msg_type_proto)))"),
+            Clause_("undefined-type-ignored", "implies(not defined_id(msg_type_proto), conn_unchanged() and n_writes == 0)", "property", ["C12"]),
+            # (C13 too: the positional lookup selects, for every id api.proto defines, the class api.proto gives that id - and handles it)
+            Clause_("every-id-api.proto-defines-is-decoded", "implies(defined_id(msg_type_proto), msg_decoded)", "property", ["C12", "C13"]),
+            Clause_("class-is-the-one-api.proto-assigns", "implies(defined_id(msg_type_proto) and msg_decoded, same_class(class_of(msg), proto_class(msg_type_proto)))", "property", ["C12", "C13"]),
             P("C12", "each-subscriber-exactly-once-in-one-pass",
-              f"implies(defined_id(msg_type_proto) and old({S}) is not CS.CLOSED, ghost.dispatched == old(ghost.dispatched) + with_msg({H}, msg, len({H})))"),
+              f"implies(defined_id(msg_type_proto) and old({S}) is not CS.CLOSED, msg_decoded) and "
+              f"implies(defined_id(msg_type_proto) and old({S}) is not CS.CLOSED and msg_decoded, ghost.dispatched == old(ghost.dispatched) + with_msg({H}, msg, len({H})))"),
         ],
         raises={"Exception": {"kind": "property", "ensures": [
             ("undecodable-closes-with-protocol-error", f"implies(decode_failed, {CLOSED} and ghost.dispatched == old(ghost.dispatched) and "
@@ -806,6 +811,10 @@ def hello_login_dispatch():
     return c
 
 
+# (C09) the documented bound of the start phase is one resolution (30 s) plus one TCP connect loop: neither step is repeated
+ONCE = P("C09", "each-step-of-the-start-phase-runs-at-most-once", "n_resolves <= 1 and n_socket_connects <= 1")
+
+
 def phase_contract(which):
     start = which == "start"
     pre_state, post_state = ("INITIALIZED", "SOCKET_OPENED") if start else ("SOCKET_OPENED", "CONNECTED")
@@ -815,12 +824,12 @@ def phase_contract(which):
         requires=[("no-other-phase-of-this-object-is-running", "not ghost.in_phase")],
         pre_hints="ghost.in_phase = True", post_hints="ghost.in_phase = False", exc_hints="ghost.in_phase = False",
         ensures=[P("C05", "phase-ends-in-its-target-state", f"{S} is CS.{post_state} and old({S}) is CS.{pre_state}")]
-        + ([] if start else [P("C06", "connected-only-after-the-hello-login-checks-passed", "ghost.hello_passed")]),
+        + ([ONCE] if start else [P("C06", "connected-only-after-the-hello-login-checks-passed", "ghost.hello_passed")]),
         raises={
             "RuntimeError": {"kind": "property", "when": f"old({S}) is not CS.{pre_state}", "ensures": [("misuse-changes-nothing", "conn_unchanged()")]},
             "APIConnectionError": {"kind": "property", "when": f"old({S}) is CS.{pre_state}",
                                    "ensures": [("failed-phase-ends-closed", CLOSED),
-                                               ("stop-callback-not-invoked", "ghost.stop_calls == old(ghost.stop_calls)")]},
+                                               ("stop-callback-not-invoked", "ghost.stop_calls == old(ghost.stop_calls)")] + ([(ONCE.name, ONCE.text)] if start else [])},
         },
         tags=["C05", "C06", "C08", "C09"],
     )
